@@ -328,6 +328,101 @@ theorem den_or {a b : List Src} {n : Nat} (ha : a.length = n) (hb : b.length = n
     simp only [List.getElem_zipWith] at this ⊢
     exact (Src.eval_or raw fv _ _ this).symm
 
+theorem Src.eval_xor (raw fv : Nat) (x y : Src) (h : Src.xor x y ≠ .top) :
+    (Src.xor x y).eval raw fv = (x.eval raw fv != y.eval raw fv) := by
+  cases x with
+  | top => exact absurd rfl h
+  | c b =>
+    cases y with
+    | top => cases b <;> exact absurd rfl h
+    | c b' => cases b <;> cases b' <;> rfl
+    | inp a j n =>
+      cases b with
+      | false => simp [Src.xor, Src.eval]
+      | true =>
+        have e : Src.xor (.c true) (.inp a j n) = (Src.inp a j n).not := rfl
+        rw [e, Src.eval_not _ _ _ (by simp [Src.not])]; simp [Src.eval]
+    | ors ls =>
+      cases b with
+      | false => simp [Src.xor, Src.eval]
+      | true => exact absurd rfl h
+  | inp a j n =>
+    cases y with
+    | top => exact absurd rfl h
+    | c b' =>
+      cases b' with
+      | false => simp [Src.xor, Src.eval]
+      | true =>
+        have e : Src.xor (.inp a j n) (.c true) = (Src.inp a j n).not := rfl
+        rw [e, Src.eval_not _ _ _ (by simp [Src.not])]; simp [Src.eval]
+    | ors ls => exact absurd rfl h
+    | inp a' j' n' =>
+      have e : Src.xor (.inp a j n) (.inp a' j' n') = if a = a' ∧ j = j' then .c (n != n') else .top := rfl
+      rw [e] at h ⊢
+      by_cases h1 : a = a' ∧ j = j'
+      · rw [if_pos h1]; obtain ⟨rfl, rfl⟩ := h1
+        cases a <;> cases n <;> cases n' <;> simp [Src.eval]
+      · rw [if_neg h1] at h; exact absurd rfl h
+  | ors ls =>
+    cases y with
+    | top => exact absurd rfl h
+    | c b' =>
+      cases b' with
+      | false => simp [Src.xor, Src.eval]
+      | true => exact absurd rfl h
+    | inp a' j' n' => exact absurd rfl h
+    | ors ls' => exact absurd rfl h
+
+theorem den_xor {a b : List Src} {n : Nat} (ha : a.length = n) (hb : b.length = n)
+    (h : noTop (List.zipWith Src.xor a b) = true) :
+    den raw fv (List.zipWith Src.xor a b) = den raw fv a ^^^ den raw fv b := by
+  symm
+  have hl : (List.zipWith Src.xor a b).length = n := by simp [ha, hb]
+  apply eq_of_evalAt
+  · rw [hl]; exact Nat.xor_lt_two_pow (by rw [← ha]; exact den_lt _ _ _) (by rw [← hb]; exact den_lt _ _ _)
+  · intro k hk
+    rw [Nat.testBit_xor, testBit_den, testBit_den, evalAt_lt _ _ hk, evalAt_lt _ _ (by omega), evalAt_lt _ _ (by omega)]
+    have := noTop_getElem h hk
+    simp only [List.getElem_zipWith] at this ⊢
+    exact (Src.eval_xor raw fv _ _ this).symm
+
+theorem Src.and_ne_top {x y : Src} (h : Src.and x y ≠ .top) : x ≠ .top ∧ y ≠ .top := by
+  constructor
+  · rintro rfl; exact h rfl
+  · rintro rfl; cases x <;> exact h rfl
+
+theorem bit_beq (b : Bool) (d y : Nat) : ((b.toNat + 2 * d) == y) = ((b == (y % 2 == 1)) && (d == y / 2)) := by
+  rw [Bool.eq_iff_iff]
+  cases b <;> simp only [Bool.toNat_false, Bool.toNat_true, beq_iff_eq, Bool.and_eq_true] <;>
+    by_cases hp : y % 2 = 1 <;> simp [hp] <;> omega
+
+/-- `eqConst l y` is the bit `den l = y` (for `y` below `2 ^ l.length`) -/
+theorem eqConst_spec : ∀ (l : List Src) (y : Nat), y < 2 ^ l.length → eqConst l y ≠ .top →
+    (eqConst l y).eval raw fv = (den raw fv l == y) := by
+  intro l
+  induction l with
+  | nil =>
+    intro y hy _
+    have : y = 0 := by simpa using hy
+    subst this; simp [eqConst, den, Src.eval]
+  | cons s l ih =>
+    intro y hy h
+    simp only [eqConst] at h ⊢
+    rw [Src.eval_and _ _ _ _ h]
+    obtain ⟨h1, h2⟩ := Src.and_ne_top h
+    have hy2 : y / 2 < 2 ^ l.length := by
+      simp only [List.length_cons, Nat.pow_succ] at hy; omega
+    rw [ih (y / 2) hy2 h2]
+    simp only [den]
+    rw [bit_beq]
+    by_cases hp : y % 2 = 1
+    · simp only [hp, beq_self_eq_true, if_true] at h1 ⊢
+      cases s.eval raw fv <;> simp
+    · have hp' : (y % 2 == 1) = false := by simpa using hp
+      simp only [hp', Bool.false_eq_true, if_false] at h1 ⊢
+      rw [Src.eval_not _ _ _ h1]
+      cases s.eval raw fv <;> simp
+
 theorem den_mux {a b : List Src} {n : Nat} (c : Src) (ha : a.length = n) (hb : b.length = n)
     (h : noTop (List.zipWith (Src.mux c) a b) = true) :
     den raw fv (List.zipWith (Src.mux c) a b) = if c.eval raw fv then den raw fv a else den raw fv b := by
